@@ -227,10 +227,13 @@ Definition sinv (s : sw) : Prop :=
   NoDup (map fst (strs s)) /\
   (forall c r, In (c, r) (strs s) -> rinv r) /\
   (* a stream registry that is still open belongs to a connection that is still registered *)
-  (forall c r, In (c, r) (strs s) -> closed r = true \/ get c (items (conns s)) = Some Registered).
+  (forall c r, In (c, r) (strs s) -> closed r = true \/ get c (items (conns s)) = Some Registered) /\
+  rinv (lsts s).
 
 Lemma sinv0 : sinv sw0.
-Proof. split; [exact rinv0|]. split; [constructor|]. split; intros c r []. Qed.
+Proof.
+  split; [exact rinv0|]. split; [constructor|]. split; [intros c r []|]. split; [intros c r []|exact rinv0].
+Qed.
 
 Lemma sget_rinv c l : (forall j r, In (j, r) l -> rinv r) -> rinv (sget c l).
 Proof.
@@ -246,12 +249,19 @@ Proof.
   destruct (Nat.eqb_spec c k) as [->|N]; cbn [orb]; intros H; [left; reflexivity|right; apply IH, H].
 Qed.
 
-Lemma sinv_conns s r' : sinv s -> rinv r' ->
-  (forall j, get j (items (conns s)) = Some Registered -> get j (items r') = Some Registered) ->
-  sinv (mkSw r' (strs s)).
+Lemma sinv_conns s f : sinv s -> rinv (f (conns s)) ->
+  (forall j, get j (items (conns s)) = Some Registered -> get j (items (f (conns s))) = Some Registered) ->
+  sinv (on_conns f s).
 Proof.
-  intros (H1 & H2 & H3 & H4) Hr Hp. split; [exact Hr|]. split; [exact H2|]. split; [exact H3|].
+  intros (H1 & H2 & H3 & H4 & H5) Hr Hp. unfold on_conns.
+  split; [exact Hr|]. split; [exact H2|]. split; [exact H3|]. split; [|exact H5].
   intros c r Hin. cbn [conns strs] in *. destruct (H4 c r Hin) as [A|A]; [left; exact A|right; apply Hp, A].
+Qed.
+
+Lemma sinv_lsts s f : sinv s -> rinv (f (lsts s)) -> sinv (on_lsts f s).
+Proof.
+  intros (H1 & H2 & H3 & H4 & H5) Hr. unfold on_lsts.
+  split; [exact H1|]. split; [exact H2|]. split; [exact H3|]. split; [exact H4|exact Hr].
 Qed.
 
 Lemma sinv_on_strs c f s :
@@ -261,8 +271,8 @@ Lemma sinv_on_strs c f s :
   (has_conn c (strs s) = true \/ get c (items (conns s)) = Some Registered) ->
   sinv (on_strs c f s).
 Proof.
-  intros Hf Hc (H1 & H2 & H3 & H4) Hpre. unfold on_strs.
-  split; [exact H1|]. cbn [conns strs]. split; [apply sset_nodup, H2|]. split.
+  intros Hf Hc (H1 & H2 & H3 & H4 & H5) Hpre. unfold on_strs.
+  split; [exact H1|]. cbn [conns strs lsts]. split; [apply sset_nodup, H2|]. split; [|split; [|exact H5]].
   - intros j r Hin. destruct (in_sset _ _ _ _ _ H2 Hin) as [[-> ->]|[_ Hold]].
     + apply Hf, sget_rinv, H3.
     + exact (H3 j r Hold).
@@ -273,12 +283,12 @@ Proof.
     + exact (H4 j r Hold).
 Qed.
 
-Lemma sinv_conn_close c s r' : sinv s -> rinv r' ->
-  (forall j, j <> c -> get j (items (conns s)) = Some Registered -> get j (items r') = Some Registered) ->
-  sinv (conn_close c (mkSw r' (strs s))).
+Lemma sinv_conn_close c s f : sinv s -> rinv (f (conns s)) ->
+  (forall j, j <> c -> get j (items (conns s)) = Some Registered -> get j (items (f (conns s))) = Some Registered) ->
+  sinv (conn_close c (on_conns f s)).
 Proof.
-  intros (H1 & H2 & H3 & H4) Hr Hp. unfold conn_close, on_strs. cbn [conns strs].
-  split; [exact Hr|]. split; [apply sset_nodup, H2|]. split.
+  intros (H1 & H2 & H3 & H4 & H5) Hr Hp. unfold conn_close, on_strs, on_conns. cbn [conns strs lsts].
+  split; [exact Hr|]. split; [apply sset_nodup, H2|]. split; [|split; [|exact H5]].
   - intros j r Hin. destruct (in_sset _ _ _ _ _ H2 Hin) as [[-> ->]|[_ Hold]].
     + apply rinv_closecs, sget_rinv, H3.
     + exact (H3 j r Hold).
@@ -325,7 +335,7 @@ Proof. intros _. apply closed_closecs. Qed.
 
 Lemma sinv_step s o : sinv s -> sinv (sstep s o).
 Proof.
-  intros Hs. destruct o as [c|c|c| |c|c|c t|c t|c t|c t|c t]; cbn [sstep].
+  intros Hs. destruct o as [c|c|c| |c|c|c t|c t|c t|c t|c t|l|l|l| |l|l]; cbn [sstep].
   - apply sinv_conns; [exact Hs|apply rinv_offer, Hs|intros j; apply reg_kept_offer].
   - apply sinv_conns; [exact Hs|apply rinv_addcs, Hs|intros j; apply reg_kept_addcs].
   - apply sinv_conns; [exact Hs|apply rinv_addrel, Hs|intros j; apply reg_kept_addrel].
@@ -347,6 +357,12 @@ Proof.
     apply sinv_on_strs; [intros r; apply rinv_closerel|intros r; rewrite closed_mono_closerel; auto|exact Hs|left; exact Eh].
   - destruct (has_conn c (strs s)) eqn:Eh; [|exact Hs].
     apply sinv_on_strs; [intros r; apply rinv_remove|intros r; rewrite closed_mono_remove; auto|exact Hs|left; exact Eh].
+  - apply sinv_lsts; [exact Hs|apply rinv_offer, Hs].
+  - apply sinv_lsts; [exact Hs|apply rinv_addcs, Hs].
+  - apply sinv_lsts; [exact Hs|apply rinv_addrel, Hs].
+  - apply sinv_lsts; [exact Hs|apply rinv_closecs, Hs].
+  - apply sinv_lsts; [exact Hs|apply rinv_closerel, Hs].
+  - apply sinv_lsts; [exact Hs|apply rinv_remove, Hs].
 Qed.
 
 Lemma sinv_run ops : forall s, sinv s -> sinv (srun s ops).
@@ -360,18 +376,20 @@ Proof.
   specialize (H _ E). discriminate.
 Qed.
 
-Lemma sinv_all_gone s : sinv s -> closed (conns s) = true -> quiescent s = true -> all_gone s = true.
+Lemma sinv_all_gone s : sinv s -> swarm_closed s = true -> quiescent s = true -> all_gone s = true.
 Proof.
-  intros (H1 & H2 & H3 & H4) Hc Hq. unfold quiescent in Hq. apply andb_prop in Hq. destruct Hq as [Hq1 Hq2].
+  intros (H1 & H2 & H3 & H4 & H5) Hc Hq. unfold swarm_closed in Hc. apply andb_prop in Hc. destruct Hc as [Hc Hcl].
+  unfold quiescent in Hq. apply andb_prop in Hq. destruct Hq as [Hq Hq3].
+  apply andb_prop in Hq. destruct Hq as [Hq1 Hq2].
   unfold all_gone. assert (Hr : r_all_released (conns s) = true) by (apply r_closed_quiescent_released; assumption).
-  rewrite Hr. cbn [andb]. apply forallb_forall. intros [c r] Hin. cbn [snd].
+  rewrite Hr. rewrite (r_closed_quiescent_released _ H5 Hcl Hq3), andb_true_r. cbn [andb]. apply forallb_forall. intros [c r] Hin. cbn [snd].
   rewrite forallb_forall in Hq2. specialize (Hq2 _ Hin). cbn [snd] in Hq2.
   apply r_closed_quiescent_released; [exact (H3 c r Hin)| |exact Hq2].
   destruct (H4 c r Hin) as [A|A]; [exact A|]. exfalso. exact (all_released_not_registered c _ Hr A).
 Qed.
 
 Lemma close_all_gone ops :
-  closed (conns (srun sw0 ops)) = true -> quiescent (srun sw0 ops) = true -> all_gone (srun sw0 ops) = true.
+  swarm_closed (srun sw0 ops) = true -> quiescent (srun sw0 ops) = true -> all_gone (srun sw0 ops) = true.
 Proof. apply sinv_all_gone, sinv_run, sinv0. Qed.
 
 (* an add that starts after the close's critical section is always refused, and
